@@ -957,6 +957,14 @@ def _stable_expr(v, frozen, depth=0):
         return _stable_expr(v[1], frozen, depth + 1)
     if k in ("add", "sub", "mul", "satsub"):
         return all(_stable_expr(x, frozen, depth + 1) for x in v[1:])
+    if k == "agg" and len(v) == 5:
+        return all(_stable_expr(x, frozen, depth + 1) for x in v[4])  # Some(pos), (a, b), a struct literal of stable parts
+    if k == "tuple":
+        return all(_stable_expr(x, frozen, depth + 1) for x in v[1])
+    if k == "enumc":
+        return True
+    if k == "cast" and len(v) == 3:
+        return _stable_expr(v[2], frozen, depth + 1)
     return False
 
 
